@@ -284,10 +284,24 @@ def cke_record(rec, ver, enc, broken=False):
     return rec.raw[:3] + len(hs).to_bytes(2, "big") + hs
 
 
-def one_handshake(ctx, sid, ver, make_enc, broken=False):
-    """-> behaviour signature dict of the server"""
+def one_handshake(ctx, sid, ver, make_enc, broken=False, client_pm=None,
+                  client_max=None):
+    """-> behaviour signature dict of the server.  With client_pm the
+    *client* is the deviant: it encrypts that premaster (any length, any
+    version bytes) and derives its keys from it, so a server that failed to
+    replace a malformed premaster would complete the handshake."""
     st = {"idx": None, "orig": None, "s2c_at": None}
     holder = {}
+    from tlslite.keyexchange import RSAKeyExchange
+    orig_psk = RSAKeyExchange.processServerKeyExchange
+    if client_pm is not None:
+        def psk(self, srvPublicKey, serverKeyExchange):
+            kk = IR.modulus_len(int(srvPublicKey.n))
+            em = em_valid(ctx.rng, kk, client_pm)
+            self.encPremasterSecret = bytearray(to_ct(srvPublicKey, em))
+            holder["used"] = True
+            return bytearray(client_pm)
+        RSAKeyExchange.processServerKeyExchange = psk
 
     def mitm(rec, idx):
         if rec.dir == "c2s" and rec.type == 22 and st["idx"] is None and \
@@ -303,7 +317,15 @@ def one_handshake(ctx, sid, ver, make_enc, broken=False):
     holder["p"] = p
     rx = mon.tap_recv(p.s, [])
     fl = suites.flavor_for(sid, ver, fresh_keys=False)
-    tc, ts = p.handshake(fl)
+    if client_max is not None:
+        # the client offers more than the server will negotiate
+        fl.cset.maxVersion = client_max
+    try:
+        tc, ts = p.handshake(fl)
+    finally:
+        RSAKeyExchange.processServerKeyExchange = orig_psk
+    if client_pm is not None and not holder.get("used"):
+        return None, tc, ts
     if st["idx"] is None:
         return None, tc, ts
     # records the server's record layer accepted from the CKE on
@@ -396,6 +418,36 @@ def run_hs(ctx, P):
         ctx.count("hs/" + fam)
         ctx.cell("hscell", "%s/%s" % (group, fam))
         results.append((cls, ct, sig))
+    # the same malformations from a client that knows what it sent
+    cmax = max(ver, (3, 3))
+    kc = []
+    for ln in (0, 1, 2, 46, 47, 49, 50, 64, k - 11):
+        kc.append(("known/len=%d" % ln, (bytes(cmax) + rng.randbytes(
+            max(0, ln - 2)))[:ln]))
+    for v in ((3, 0), (3, 1), (3, 2), (3, 3), (3, 4), (2, 0), (0, 0),
+              (255, 255)):
+        if v in (cmax, ver):
+            continue    # client_version, and the tolerated negotiated one
+        kc.append(("known/version_%d_%d" % v, bytes(v) + rng.randbytes(46)))
+    ok, tc, ts = one_handshake(ctx, sid, ver, lambda orig: orig,
+                               client_pm=bytes(cmax) + rng.randbytes(46),
+                               client_max=cmax)
+    ctx.ev()
+    if ok is None or not ok["server_done"] or tc.status != "done":
+        ctx.inconc("C11(b) deviant-client control (well-formed premaster) "
+                   "failed for %s: %r %r" % (group, tc.exc, ts.exc))
+    else:
+        ctx.count("hs_control_known_premaster")
+        for cls, pm in kc:
+            if ctx.expired():
+                break
+            sig, tc, ts = one_handshake(ctx, sid, ver, lambda orig: orig,
+                                        client_pm=pm, client_max=cmax)
+            ctx.ev()
+            fam = cls_family(cls)
+            ctx.count("hs/" + fam)
+            ctx.cell("hscell", "%s/%s" % (group, fam))
+            results.append((cls, pm, sig))
     for cls, ct, sig in results:
         seen.setdefault(json.dumps(sig, sort_keys=True), []).append(cls)
     # the behaviour shared by most classes is the norm; every class that
